@@ -842,7 +842,13 @@ impl LdapConnAsync {
                             4 | 25 => (SearchItem::Entry(protoop), false),
                             5 => (SearchItem::Done(Tag::StructureTag(protoop).into()), true),
                             19 => (SearchItem::Referral(protoop), false),
-                            _ => panic!("unrecognized op id: {}", protoop.id),
+                            _ => {
+                                warn!("unrecognized op id for a search: {}", protoop.id);
+                                return Err(LdapError::from(io::Error::new(
+                                    io::ErrorKind::Other,
+                                    "decoding error",
+                                )));
+                            }
                         };
                         if let Err(e) = tx.send((item, controls)) {
                             warn!("ldap search item send error, op={}: {:?}", id, e);
